@@ -8,9 +8,10 @@ TXT = {
  "C01": ("TLA+ contract H2Api!Fidelity (pair ledger submit/deliver) evaluated by TLC on every recorded execution of real client<->real server under seeded schedules, chunkings, windows and back-pressure; design-level exploration of the data path in MC_Send", "4 C01"),
  "C02": ("TLC exhaustively explores the implementation-shaped send-side model H2Send (every interleaving of sends, reservations, WINDOW_UPDATE, SETTINGS up/down, resets with a frame parked in the codec) composed with the TLA+ credit ledger H2Wire!OutCredit; the model is bound to the code by replaying TLC-generated behaviours and comparing the statistics snapshot step by step; the same ledger is evaluated by TLC on every recorded real trace", "4 C02"),
  "C03": ("TLA+ receive-credit ledger (over-credit at every WINDOW_UPDATE, leak rules at every quiescence) evaluated by TLC on real traces where a scripted peer exhausts stream and connection windows exactly (padded, padding-only, on reset/refused/unaccepted streams)", "4 C03"),
- "C04": ("RFC 9113 5.1/6 reference automaton for emitted frames (H2Wire!OutLife) evaluated by TLC on every frame of every real trace, both roles", "4 C04"),
+ "C04": ("RFC 9113 5.1/6 reference automaton for emitted frames (H2Wire!OutLife) evaluated by TLC on every frame of every real trace, both roles; for the push path additionally TLC exhaustive on the implementation model H2Push (MC_Push, both roles: InvC04 - nothing after RST_STREAM, promises on live parents, ids increasing - with writes delayed arbitrarily) bound to the code by replaying TLC-generated behaviours (conformPush: frames in order and every slab record compared)", "4 C04, 11.12"),
+ "C09": ("RFC 9113 classification of every received frame (H2Wire!Classify / PrefixMalformed: connection error, stream error, legal) and of the reaction owed, evaluated by TLC on real traces of both roles under protocol abuse after legal prefixes, floods, races of peer frames with local resets / cancellations / pushes, and policy rules (a flood verdict must be justified by what is unread: C09.data_budget); for the push path TLC exhaustive on H2Push (MC_Push: a peer frame that is legal given what is on the WIRE never costs the connection, an illegal one always does) bound to the code by conformPush", "4 C09, 11.12"),
  "C05": ("TLC exhaustive on the implementation model of the stream store H2Streams (MC_Streams: refused streams never reach the accept queue / the application, open => counted, counted <= limit, every closing path frees the slot) bound to the code by replaying TLC-generated behaviours with step-by-step snapshot comparison; TLA+ concurrency ledger (acknowledged limit, surfaced streams, refusal obligations, send-side limit and slot recycling) evaluated by TLC on real traces, incl. a scripted peer changing MAX_CONCURRENT_STREAMS while streams are open", "4 C05, 11.7"),
- "C06": ("TLC exhaustive on the implementation model of h2's wake-up protocol H2Tasks (MC_Tasks, 6 slices, both roles: every place that stores a waker, every place that wakes one; invariant: at no quiescent state a task is parked in a call that would now return Ready, the connection task is never parked with work it could do, nothing parked after the connection ended, no waker slot overwritten) bound to the code by replaying TLC-generated behaviours under the STRICT executor (a task is polled only if its waker fired) and comparing the set of parked tasks and every call result at every quiescence; TLA+ rule Quiescent => nothing outstanding evaluated by TLC at every final quiescence of cooperative runs", "4 C06, 11.11"),
+ "C06": ("TLC exhaustive on the implementation model of h2's wake-up protocol H2Tasks (MC_Tasks, 6 slices, both roles: every place that stores a waker, every place that wakes one; invariant: at no quiescent state a task is parked in a call that would now return Ready, the connection task is never parked with work it could do, nothing parked after the connection ended, no waker slot overwritten) bound to the code by replaying TLC-generated behaviours under the STRICT executor (a task is polled only if its waker fired) and comparing the set of parked tasks and every call result at every quiescence; TLA+ rules evaluated by TLC on real traces: nothing outstanding at the final quiescence of cooperative runs, a parked poll_capacity has no capacity, an accepted user ping is on the wire at every quiescence", "4 C06, 11.11"),
  "C07": ("TLA+ termination rule (ended connection leaves no operation pending) evaluated by TLC at final quiescence of real runs ending by GOAWAY, errors, EOF, drops", "4 C07"),
  "C08": ("panic / self-wake budget events are part of the trace alphabet that the TLA+ monitors reject; every simulated poll runs under catch_unwind; corpora: all families incl. protocol abuse after legal prefixes, floods, and byte-level mutation of the peer's stream (mutateB: bit flips, replaced / dropped / doubled octets in frame heads, lengths, HPACK and payloads, any fragmentation, both roles); the single-slot asserts of the control path are shown unreachable by TLC on H2Conn (MC_Conn InvAssert), the store asserts on H2Streams (InvAssert)", "4 C08"),
  "C10": ("TLC: RFC 7541 encoder/decoder sync invariant (Hpack/HpackSys) and the implementation-shaped index table model HpackTable (exhaustive); TLC-generated histories replayed on the real Encoder, output decoded by the reference and by h2's Decoder, validated by Trace_Hpack", "4 C10"),
